@@ -50,6 +50,10 @@ class Harness:
                 params = json.loads((self.script.parent / "params.json").read_text())
                 n = params["objects"][-1]["fields"]["n"]
                 code = 1 if str(n) in harness.fails else 0
+                # files the task itself writes in its directory: they say nothing about the state of the job
+                (self.script.parent / "epoch-0001.done").write_text("checkpoint")
+                (self.script.parent / "trace.failed").write_text("log")
+                (self.script.parent / "child.pid").write_text("123")
                 if code == 0:
                     base.with_suffix(".done").touch()
                 else:
